@@ -62,6 +62,7 @@ let parse_op () =
   | "AL" -> let s = next_name () in let i = next_hex () in let lf = next_name () in let k = next_int () in let ts = repeat k next_hex in OAddLinks (s, i, lf, ts)
   | "RL" -> let s = next_name () in let i = next_hex () in let lf = next_name () in let k = next_int () in let ts = repeat k next_hex in ORemoveLinks (s, i, lf, ts)
   | "FAIL" -> OFail
+  | "FAILT" -> ignore (next ()); ignore (next ()); OFail
   | t -> failwith ("bad op " ^ t)
 
 let parse_tx () =
